@@ -119,6 +119,8 @@ type Node struct {
 	Log      *CapLogger
 
 	RecoverWG *sync.WaitGroup // see WaitQuiescent
+	// AwardExtra, when set, makes FormatBlock build a coinbase with these outputs after the award
+	AwardExtra []Out
 
 	chainMu   sync.Mutex
 	chain     *xuperos.Chain
